@@ -392,6 +392,11 @@ REGISTRY["C11"]["teq"].append({"engine": "sweepsched", "quick": {"n": 25, "seedo
                                 "oracle": True, "mismatch_is_failure": True, "timeout": 3400,
                                 "nontrivial": lambda case, res: " X" in case and "removed=0" not in res, "distinct_key": lambda case, res: case,
                                 "what": "T-sched for Model.Sweep (hook H9): the real sweeper thread is parked right after its sample and again between finding a sampled record expired and its guarded removal, while the controlling thread renews (insert with/without TTL, update_ttl, persist), deletes, reads or adds expired-on-arrival keys, mostly on the very key the sweeper is about to handle; then the sweeper is released. The executed event sequence is replayed by the extracted Model.Sweep.sstep: every client result, the final table (ordered and hashed index, value, expiry class), len() and the number of removals by expiry must agree. Oracle independent of the model: what this thread's own calls imply for every read (an unexpired or permanent key is found with its latest value, an expired or deleted one is not)"})
+REGISTRY["C17"]["teq"].append({"engine": "mutimg", "quick": {"seedoff": 1717}, "thorough": {"tier": "thorough", "seedoff": 1717}, "ovf": True, "oracle": True,
+                                "mismatch_is_failure": False, "timeout": 3000,
+                                "nontrivial": lambda case, res: not res.startswith("err invalid-metadata") and not res.startswith("fresh") and not res.startswith("note"),
+                                "distinct_key": lambda case, res: res + case.split("mut=")[-1],
+                                "what": "the same mutated images opened by a build of /repo with integer-overflow checks on (what an application's debug build does: `-C overflow-checks=on`): arithmetic on values that a damaged file controls -- lengths, counts, sectors, journal generations at the top of their range -- must not panic; the outcome must equal Model.Recovery.open_image as in the release build"})
 REGISTRY["C14"]["teq"].append({"engine": "sweepsched", "quick": {"n": 25, "seedoff": 1411}, "thorough": {"n": 600, "seedoff": 1411},
                                 "oracle": True, "mismatch_is_failure": True, "timeout": 3400,
                                 "nontrivial": lambda case, res: " X" in case and "removed=0" not in res, "distinct_key": lambda case, res: case,
@@ -464,8 +469,11 @@ def run_property(pid, eng, tier, seed, t0):
         rok, rout = vlib.build_runner()
         hok, hout = vlib.build_harness()
         aok, aout = True, ""
+        ook, oout = True, ""
         if any(t.get("asan") for t in eng["teq"]):
             aok, aout = vlib.build_harness_asan()
+        if any(t.get("ovf") for t in eng["teq"]):
+            ook, oout = vlib.build_harness_ovf()
     prop = vlib.coq_property(pid)
     if not prop["ok"]:
         proof_problems.append({"what": "Properties/%s.v does not check or depends on a non-allow-listed axiom" % pid,
@@ -477,6 +485,8 @@ def run_property(pid, eng, tier, seed, t0):
         proof_problems.append({"what": "harness does not build against /repo's working tree", "log": hout[-3000:]})
     if not aok:
         proof_problems.append({"what": "AddressSanitizer build of the harness failed", "log": aout[-3000:]})
+    if not ook:
+        proof_problems.append({"what": "overflow-checked build of the harness failed", "log": oout[-3000:]})
 
     # ---------------- 2. correspondence ----------------
     total_cases = 0
@@ -493,8 +503,10 @@ def run_property(pid, eng, tier, seed, t0):
             t1 = time.time()
             if t.get("asan") and not aok:
                 continue
+            if t.get("ovf") and not ook:
+                continue
             try:
-                rc, so, se = vlib.run_harness(t["engine"], outdir, args, timeout=t.get("timeout", 3000), asan=bool(t.get("asan")))
+                rc, so, se = vlib.run_harness(t["engine"], outdir, args, timeout=t.get("timeout", 3000), asan=bool(t.get("asan")), ovf=bool(t.get("ovf")))
             except subprocess.TimeoutExpired:
                 rc, so, se = 124, "", "harness timed out"
             if t.get("expect_asan_report"):
